@@ -6,8 +6,12 @@ import (
 	"testing"
 
 	"github.com/pion/rtcp"
+	"pgregory.net/rapid"
 
+	"verif/conv"
+	"verif/gen"
 	"verif/harness"
+	m "verif/refmodel"
 )
 
 // C16: fixed-width wire units encode/decode bijectively over their whole domain.
@@ -270,8 +274,86 @@ func c16Range(t *testing.T, unit string, lo, hi uint64, f func(i uint64) uint64)
 	return n
 }
 
+// c16Version: "headers with a version other than 2 or fewer than 4 octets are rejected" holds for
+// the common header wherever it is parsed - by Header.Unmarshal (unit "header-word" below), by the
+// datagram decoder, and by every packet type's own decoder, some of which parse the first octet
+// themselves. Frame is a valid encoding of Kind; the case sets the two version bits to Version,
+// or cuts the frame to Cut (0..3) octets.
+type c16Version struct {
+	Kind    m.Kind
+	Frame   m.Bytes
+	Version uint8
+	Cut     int // -1: full frame
+}
+
+var subC16Version = harness.NewSub("c16-bad-version-rejected-by-every-decoder", func(c c16Version, _ harness.Dialect) error {
+	b := append([]byte(nil), c.Frame...)
+	what := fmt.Sprintf("version %d", c.Version)
+	if c.Cut >= 0 {
+		b = b[:c.Cut]
+		what = fmt.Sprintf("only %d octets", c.Cut)
+	} else {
+		b[0] = b[0]&0x3F | c.Version<<6
+	}
+	if c.Cut < 0 && c.Version == 2 {
+		// the control: the unmodified frame is accepted by the same decoder
+		if err := conv.New(c.Kind).Unmarshal(exactCopy(b)); err != nil {
+			return fmt.Errorf("%s: its own decoder rejects the valid frame %s: %v", conv.GoType(c.Kind), hexs(b), err)
+		}
+		return nil
+	}
+	var derr error
+	if perr := harness.Guard(func() error { derr = conv.New(c.Kind).Unmarshal(exactCopy(b)); return nil }); perr != nil {
+		return fmt.Errorf("%s.Unmarshal of a frame with %s panicked: %v", conv.GoType(c.Kind), what, perr)
+	}
+	if derr == nil {
+		return fmt.Errorf("%s.Unmarshal accepted a frame with %s: %s", conv.GoType(c.Kind), what, hexs(b))
+	}
+	if ps, err := safeUnmarshal(exactCopy(b)); err == nil {
+		return fmt.Errorf("rtcp.Unmarshal accepted a %s frame with %s (%d packets): %s", c.Kind, what, len(ps), hexs(b))
+	}
+	return nil
+})
+
+func testC16Versions(t *testing.T) {
+	kinds := append(append([]m.Kind(nil), m.TypedKinds...), m.KRAW)
+	n := harness.Scale(40, 400)
+	lo, hi := harness.ShardRange(int64(len(kinds) * n))
+	for i := lo; i < hi; i++ {
+		k := kinds[int(i)/n]
+		g := rapid.Custom(func(rt *rapid.T) []byte {
+			p := gen.PacketOf(rt, k)
+			shrinkBig(p)
+			e, err := m.Encode(c06Readable(p), &m.EncOpts{D: gen.PionDialect})
+			if err != nil {
+				panic(err)
+			}
+			return e.B
+		})
+		frame := g.Example(int(harness.SeedFor(1616)%100000) + int(i))
+		if len(frame) > 4096 {
+			continue
+		}
+		for _, v := range []uint8{2, 0, 1, 3} {
+			c := c16Version{Kind: k, Frame: frame, Version: v, Cut: -1}
+			subC16Version.Check(t, c)
+			harness.Eval(subC16Version.Name, 1)
+			harness.NonTrivialHash(harness.Hash(c))
+		}
+		for cut := 0; cut <= 3; cut++ {
+			c := c16Version{Kind: k, Frame: frame, Version: 2, Cut: cut}
+			subC16Version.Check(t, c)
+			harness.Eval(subC16Version.Name, 1)
+			harness.NonTrivialHash(harness.Hash(c))
+		}
+		harness.Class("version-frame:"+string(k), 1)
+	}
+	harness.Sample(subC16Version.Name, 1, c16Version{Kind: m.KREMB, Frame: []byte{0x8f, 0xce, 0, 4, 0, 0, 0, 1, 0, 0, 0, 0, 'R', 'E', 'M', 'B', 0, 0, 0, 1}, Version: 0, Cut: -1})
+}
+
 func TestC16(t *testing.T) {
 	defer harness.Uncaught(t)
+	testC16Versions(t)
 	id := func(i uint64) uint64 { return i }
 	shard := func(n uint64) (uint64, uint64) {
 		lo, hi := harness.ShardRange(int64(n))
